@@ -428,3 +428,53 @@ func runCancelled(c *hk.Ctx) {
 		b.close()
 	}
 }
+
+// runSendAtHeaders: a send issued the moment the peer has the response headers of its GET must reach that stream and be
+// counted by a broadcast. The GET handler is held at its scheduling point right after the header flush (`get:flushed`,
+// build tag verif) while the sends are made.
+func runSendAtHeaders(c *hk.Ctx) {
+	f := hk.NewFixture(hk.SrvCfg{Mode: "stateful", Get: true, PostSSE: false})
+	defer f.Close()
+	r := f.Post(nil, initBody)
+	sid := r.Header.Get("Mcp-Session-Id")
+	f.Post(map[string]string{"Mcp-Session-Id": sid}, `{"jsonrpc":"2.0","method":"notifications/initialized"}`)
+	hold := make(chan struct{})
+	at := make(chan struct{}, 1)
+	mcp.VerifSetYield(func(point string, req *http.Request) {
+		if point == "get:flushed" && req != nil && req.Header.Get("Mcp-Session-Id") == sid {
+			select {
+			case at <- struct{}{}:
+			default:
+			}
+			select {
+			case <-hold:
+			case <-time.After(ceiling):
+			}
+		}
+	})
+	defer mcp.VerifSetYield(nil)
+	status, _, st, err := f.OpenStream(map[string]string{"Mcp-Session-Id": sid}) // returns when the peer has the headers
+	if err != nil || status != 200 {
+		close(hold)
+		return
+	}
+	defer st.CloseByClient()
+	select {
+	case <-at:
+	case <-time.After(waitCeiling()):
+	}
+	e1 := f.S.SendNotification(sid, "notifications/message", tagParams(1))
+	n, e2 := f.S.BroadcastNotification("notifications/message", tagParams(2))
+	close(hold)
+	_ = f.S.SendNotification(sid, "notifications/message", tagParams(-1))
+	waitUntilShort(func() bool { _, k := classifyFrames(datasOf(st)); return k >= 1 })
+	sn, _ := classifyFrames(datasOf(st))
+	c.Count("send-at-headers", true, map[string]any{"kind": "send-at-headers", "send_err": fmt.Sprint(e1), "broadcast": n, "broadcast_err": fmt.Sprint(e2), "seen": sn.notif}, "send-at-headers")
+	if e1 != nil || e2 != nil || n != 1 || len(sn.notif) != 2 || sn.notif[0] != 1 || sn.notif[1] != 2 {
+		c.Violate(hk.Violation{Fingerprint: "routing:send-at-headers-not-delivered:streamable",
+			What:     "a notification sent (and a broadcast made) the moment the peer had received the response headers of its GET stream did not reach that stream / was not counted",
+			Input:    map[string]any{"history": "initialize; GET (peer has the 200 headers, the handler stands right after its header flush); SendNotification(session); BroadcastNotification"},
+			Observed: map[string]any{"send_error": fmt.Sprint(e1), "broadcast_count": n, "broadcast_error": fmt.Sprint(e2), "frames_on_stream": sn.notif},
+			Expected: map[string]any{"send_error": "<nil>", "broadcast_count": 1, "frames_on_stream": []int{1, 2}}})
+	}
+}
